@@ -306,34 +306,63 @@ def nP0 : Name := [112, 48]                    -- "p0"
 def nK : Name := [107]                         -- "k"
 def nTheta : Name := [116, 104, 101, 116, 97]  -- "theta"
 
-def a : Sym := ⟨nA, 0⟩
-def d : Sym := ⟨nD, 1⟩
-def m0 : Sym := ⟨nM0, 2⟩
-def x : Sym := ⟨nX, 3⟩
-def p0 : Sym := ⟨nP0, 0⟩
+/-! declarations (complete `assumptions0` dicts of `Symbol(…)`, `Symbol(…, positive=True)`, …; fact numbers
+as in `Model/C17Rename.lean`: 2 commutative, 3 complex, …, 28 real, 30 zero) -/
+def declNone : Nat := mkDecl [(2, true)]
+def declPositive : Nat := mkDecl [(2, true), (3, true), (6, false), (7, true), (8, false), (9, true), (10, true),
+  (11, true), (12, true), (13, true), (14, false), (15, false), (18, false), (20, true), (21, false), (22, true),
+  (25, true), (28, true), (30, false)]
+def declNonnegative : Nat := mkDecl [(2, true), (3, true), (6, false), (7, true), (11, true), (12, true), (13, true),
+  (14, false), (15, false), (18, false), (20, true), (28, true)]
+def declReal : Nat := mkDecl [(2, true), (3, true), (11, true), (12, true), (13, true), (14, false), (15, false), (28, true)]
+def declComplex : Nat := mkDecl [(2, true), (3, true), (12, true), (15, false)]
+def declRational : Nat := mkDecl [(0, true), (2, true), (3, true), (11, true), (12, true), (13, true), (14, false),
+  (15, false), (17, false), (27, true), (28, true), (29, false)]
+/-- `Symbol("g", zero=False)`: a complex, non-zero coupling — `assumptions0 = {commutative: True, zero: False}` -/
+def declNonzero : Nat := mkDecl [(2, true), (30, false)]
+
+def a : Sym := ⟨nA, declNone⟩
+def d : Sym := ⟨nD, declPositive⟩
+def m0 : Sym := ⟨nM0, declNonnegative⟩
+def x : Sym := ⟨nX, declReal⟩
+def p0 : Sym := ⟨nP0, declNone⟩
+/-- label of the amplitude `IndexedBase("A", complex=True)` and the summation index `Symbol("m_A", rational=True)` -/
+def ampBase : Sym := ⟨[65], declComplex⟩
+def idx : Sym := ⟨[105], declRational⟩
 
 def witnessModel : Model :=
   { expr := .app 0 [.app 2 [.app 1 [.sym a, .sym x]], .app 2 [.app 1 [.sym d, .sym x]]]
-    intensity := .app 5 [.app 2 [.app 3 [.sym ⟨[65], 4⟩, .sym ⟨[105], 5⟩]], .sym ⟨[105], 5⟩]
-    amplitudes := [⟨[65, 91, 48, 93], .app 3 [.sym ⟨[65], 4⟩, .const 0], .app 1 [.sym a, .sym x]⟩,
-                   ⟨[65, 91, 49, 93], .app 3 [.sym ⟨[65], 4⟩, .const 1], .app 1 [.sym d, .sym x]⟩]
+    intensity := .app 5 [.app 2 [.app 3 [.sym ampBase, .sym idx]], .sym idx]
+    amplitudes := [⟨[65, 91, 48, 93], .app 3 [.sym ampBase, .const 0], .app 1 [.sym a, .sym x]⟩,
+                   ⟨[65, 91, 49, 93], .app 3 [.sym ampBase, .const 1], .app 1 [.sym d, .sym x]⟩]
     params := [(a, 0), (d, 1), (m0, 2)]
     kinvars := [(x, .app 4 [.sym p0])]
     components := [([73], .app 1 [.sym a, .sym x])] }
 
 /-- a second kinematic variable, to show what merging two of them does -/
 def twoKinModel : Model :=
-  { witnessModel with kinvars := [(⟨nTheta, 3⟩, .app 6 [.sym p0]), (x, .app 4 [.sym p0])] }
+  { witnessModel with kinvars := [(⟨nTheta, declReal⟩, .app 6 [.sym p0]), (x, .app 4 [.sym p0])] }
 
 /-- a second parameter with other assumptions than `a`, to merge with it under a fresh name -/
-def g : Sym := ⟨[103], 2⟩
+def g : Sym := ⟨[103], declNonnegative⟩
 
 def mergeModel : Model :=
   { witnessModel with
     expr := .app 0 [.app 2 [.app 1 [.sym a, .sym x]], .app 2 [.app 1 [.sym g, .sym x, .sym a]]]
-    amplitudes := [⟨[65, 91, 48, 93], .app 3 [.sym ⟨[65], 4⟩, .const 0], .app 1 [.sym a, .sym x]⟩,
-                   ⟨[65, 91, 49, 93], .app 3 [.sym ⟨[65], 4⟩, .const 1], .app 1 [.sym g, .sym x, .sym a]⟩]
+    amplitudes := [⟨[65, 91, 48, 93], .app 3 [.sym ampBase, .const 0], .app 1 [.sym a, .sym x]⟩,
+                   ⟨[65, 91, 49, 93], .app 3 [.sym ampBase, .const 1], .app 1 [.sym g, .sym x, .sym a]⟩]
     params := [(a, 0), (g, 1)] }
+
+/-- a complex coupling declared non-zero (`Symbol("g", zero=False)`: a False-valued fact that no True fact of
+the symbol implies), as custom dynamics introduce them; mirrored by `tools/props/C17.py: witness_models()` -/
+def gNonzero : Sym := ⟨[103], declNonzero⟩
+
+def nonzeroModel : Model :=
+  { witnessModel with
+    expr := .app 0 [.app 2 [.app 1 [.sym a, .sym x]], .app 2 [.app 1 [.sym gNonzero, .sym x, .sym a]]]
+    amplitudes := [⟨[65, 91, 48, 93], .app 3 [.sym ampBase, .const 0], .app 1 [.sym a, .sym x]⟩,
+                   ⟨[65, 91, 49, 93], .app 3 [.sym ampBase, .const 1], .app 1 [.sym gNonzero, .sym x, .sym a]⟩]
+    params := [(a, 0), (gNonzero, 1)] }
 
 def unsoundNoParams : Variant := ⟨false, true, true⟩
 /-- the tree before 137fbcb -/
